@@ -19,6 +19,7 @@ LEVEL_TEXT = ("Held on every generated script of the run: subscribe / unsubscrib
               "subscriptions with 0 or 2 endpoints or an unknown eventgroup must be refused. Scripts are sampled")
 LEVEL_NOTE = ("trusts the subscriber-set/value model in this module and pv/refwire.py; a change of the subscriber set in the instant a "
               "round starts makes that endpoint 'either' for that round; one live subscription per endpoint and eventgroup at a time")
+TIEBREAK_VARIANTS = True  # thorough tier: some shards run equal-deadline timers LIFO / in seeded random order
 RULE = (
     "scripts of 4-40 actions over {subscribe, unsubscribe, late/duplicate unsubscribe of an unsubscribed endpoint} x 4 endpoints x "
     "1-2 eventgroups, set value, notify_once(subset), at new "
